@@ -16,7 +16,9 @@ REQUIRED = ['C03.sift_col_eq_extract', 'C03.sift_cap_prefix', 'C03.sift_cols_le_
             'C03.maskSift_cols_le_cap', 'C03.maskSift_cap_prefix', 'C03.ensemble_cols_le_cap', 'C03.ensembleSift_cols_le_cap',
             'C03.ceemd_cols_le_cap', 'C03.secondLayer_shape', 'C03.secondLayer_block', 'C03.secondLayer_over_sift',
             'C03.maskSecondLayer_shape', 'C03.maskSecondLayer_block', 'C03.maskSecondLayer_ok_iff', 'C03.maskSecondLayer_over_maskSift',
-            'C03.maskSift_col_lengths', 'C03.ceemd_col_lengths']
+            'C03.maskSift_col_lengths', 'C03.ceemd_col_lengths',
+            # cap law at the smallest caps: complete ensemble with max_imfs = 1 returns exactly the first ensemble step
+            'C03.ceemd_cap_one']
 TRUSTED = ['single-IMF extraction (get_next_imf / get_next_imf_mask) is an oracle table in the SIFT / MASKSIFT correspondence: row k '
            'holds the output of the real public function on the residual computed by the harness; the model replays its own loop and '
            'cap logic and rejects the table (oracle-desync) if a residual drifts by more than 1e-9*max(1,|x|)',
